@@ -73,7 +73,6 @@ func d4(a, b MapB)  { deriveDeepCopyMB(a, b) }
 func d5(a, b *Holder) { deriveDeepCopyH(a, b) }
 `
 
-
 func checkC08(c *Ctx) {
 	c.Anchors = []string{"derive"}
 	c.Run.Rule = "cases = (module tree, invocation) pairs. Repeats: large generated packages with >= 6 imports and dozens of helpers per plugin are generated 8x, a package built so that an unnamed type is assignable to several registered named types of every plugin (two candidates in a name lookup) 64x (quick) / 256x (thorough) - a 2-entry Go map deviates from insertion order in only ~1/8 of runs; every run is a fresh process, so map iteration order is re-randomised. Invocation variants on a 4-package module (one package imported by another): all orderings of the package arguments, one invocation vs separate invocations, relative path / ./... / import path spelling, subsets. Oracle: sha256 of each package's derived.gen.go must be identical across all repeats and variants. distinct_nontrivial = distinct (package, invocation variant) with identical bytes"
@@ -128,7 +127,7 @@ func checkC08(c *Ctx) {
 	reps = append(reps, rep{"samename", map[string]string{"go.mod": pgen.GoMod,
 		"old/model/m.go": "package model\n\ntype Item struct {\n\tN int\n\tS []string\n}\n\ntype Items []Item\n\ntype ID int64\n",
 		"new/model/m.go": "package model\n\ntype Item struct {\n\tK string\n\tP *int\n}\n\ntype Items []Item\n\ntype ID string\n",
-		"p/p.go": "package p\n\nimport (\n\tnewmodel \"scratch/new/model\"\n\toldmodel \"scratch/old/model\"\n)\n\nfunc e(a, b oldmodel.Items) bool { return deriveEqual(a, b) }\n\nfunc d(a, b newmodel.Items) { deriveDeepCopy(a, b) }\n\nfunc h(a oldmodel.Item) uint64 { return deriveHash(a) }\n\nfunc c(a, b newmodel.Item) int { return deriveCompare(a, b) }\n\nfunc g(a newmodel.Items) string { return deriveGoString(a) }\n\nfunc k(m map[oldmodel.ID]newmodel.ID) []oldmodel.ID { return deriveSort(deriveKeys(m)) }\n\nfunc cl(a oldmodel.Items) oldmodel.Items { return deriveClone(a) }\n\nfunc u(l []newmodel.ID) []newmodel.ID { return deriveUnique(l) }\n"},
+		"p/p.go":         "package p\n\nimport (\n\tnewmodel \"scratch/new/model\"\n\toldmodel \"scratch/old/model\"\n)\n\nfunc e(a, b oldmodel.Items) bool { return deriveEqual(a, b) }\n\nfunc d(a, b newmodel.Items) { deriveDeepCopy(a, b) }\n\nfunc h(a oldmodel.Item) uint64 { return deriveHash(a) }\n\nfunc c(a, b newmodel.Item) int { return deriveCompare(a, b) }\n\nfunc g(a newmodel.Items) string { return deriveGoString(a) }\n\nfunc k(m map[oldmodel.ID]newmodel.ID) []oldmodel.ID { return deriveSort(deriveKeys(m)) }\n\nfunc cl(a oldmodel.Items) oldmodel.Items { return deriveClone(a) }\n\nfunc u(l []newmodel.ID) []newmodel.ID { return deriveUnique(l) }\n"},
 		tierN(c, 32, 128), []string{"./p"}})
 
 	for _, rp := range reps {
